@@ -38,7 +38,7 @@ BUDGET_S = {"quick": 75, "thorough": 800}
 def plan(tier):
     if tier == "quick":
         return [{"n": 500, "i": i} for i in range(16)]
-    return [{"n": 1200, "i": i} for i in range(14)] + [{"bulk": 6000, "seed": 1}, {"bulk": 6000, "seed": 2}]
+    return [{"n": 12000, "i": i} for i in range(14)] + [{"bulk": 6000, "seed": 1}, {"bulk": 6000, "seed": 2}]
 
 
 KINDS = ["random", "random", "magic", "hdr-garbage", "hdr-empty", "hdr-empty", "crc-garbage", "crc-msgs", "hello", "hello", "hello-trunc", "hello-big",
